@@ -80,6 +80,9 @@ type Op struct {
 	Plans      map[int]*HandlerPlan // by server index; missing = default (reply at once)
 	Observers  []ObserverSpec
 	CancelW    float64 // relative weight of the cancel action (ctx == cancel)
+	// CancelAfter (ctx == cancel, synchronous and send-waiting calls): the thread cancels the
+	// context right after the stub has returned, as `defer cancel()` does
+	CancelAfter bool
 	PadKB      int     // payload padding in KiB (flow-control scenarios)
 	// get / wait: index of an earlier call op in the same thread
 	Ref int
